@@ -164,6 +164,16 @@ def make_runner(mode, nodes, ctx0, d):
             for _ in range(k):
                 guarded(lambda: Pipeline(copy.deepcopy(nodes)).process(Payload(NoDataType(), ContextType(copy.deepcopy(ctx0)))))
         return run_k, [], lambda: None
+    if mode == "fresh-captured":
+        # every run under its own captured stdout (a per-job console log, a notebook cell, a test harness' capture)
+        import contextlib
+        import io
+
+        def run_k(k):
+            for _ in range(k):
+                with contextlib.redirect_stdout(io.StringIO()):
+                    guarded(lambda: Pipeline(copy.deepcopy(nodes)).process(Payload(NoDataType(), ContextType(copy.deepcopy(ctx0)))))
+        return run_k, [], lambda: None
     if mode in ("fresh-traced", "reused-traced"):
         from semantiva.trace.drivers.jsonl import JsonlTraceDriver
         counter = [0]
@@ -423,7 +433,7 @@ def run(tier: str) -> int:
             variants.append((nodes + [{"processor": "TFail"}] if pipegen.run_real(nodes + [{"processor": "TFail"}], ctx0)["cls"] == ("proc", "proc")
                              else [{"processor": "TSourceDef"}, {"processor": "TFail"}], True))
         with rt.tempdir() as d:
-            for (nodes, failing), mode in [(v, m) for v in variants for m in ("reused", "fresh", "fresh-traced", "reused-traced", "run-space-api", "run-space", "queue")]:
+            for (nodes, failing), mode in [(v, m) for v in variants for m in ("reused", "fresh", "fresh-captured", "fresh-traced", "reused-traced", "run-space-api", "run-space", "queue")]:
                 if failing and mode == "run-space":
                     continue          # a launch stops at its first failing run: nothing is repeated
                 stats["failing_variants"] = stats.get("failing_variants", 0) + (1 if failing else 0)
